@@ -31,7 +31,7 @@ def mk_case(ctx, rng, i, kind=None, ending=None, fault=None, policy=None, knobs=
             'ending': ending or rng.choice(['return', 'return', 'exception', 'terminate']), 'fault': fault,
             'chain': rng.randrange(0, 3), 'items': rng.randrange(1, 3), 'policy': policy, 'knobs': knobs or {},
             'observe': rng.choice(['wait', 'poll-wait', 'poll-wait'] if lib.is_remote(kind) else ['wait', 'wait', 'poll-wait']),
-            'poll_timeout': rng.choice([0, 0, 0.001, 0.01, 0.05]),
+            'poll_timeout': rng.choice([0, 0, 0.001, 0.01, 0.05]), 'blind_restart': rng.random() < 0.4,
             'sched_seed': ctx.case_seed(tag, i)}
 
 
@@ -88,8 +88,9 @@ class Run:
                         w.enqueue(x + 1 if ending != 'exception' else 2)
                     except Exception:
                         pass
+            blind = bool(c.get('blind_restart') and pers and gen < c['chain'] and ending in ('return', 'exception') and c.get('observe') != 'poll-wait')
             # reads while alive
-            for k in range(2):
+            for k in range(0 if blind else 2):
                 v = w.user_state
                 left = [e for e in s.truth[mark:] if e['kind'] == 'run-left' and (not pers or e['how'] == 'raise')]
                 if not left and lib.base_kind(kind) != 'thread' and v != state_now:
@@ -130,11 +131,37 @@ class Run:
                               {'got': lib.safe_repr(got_now), 'last': lib.safe_repr(last)})
                     return
             s.sleep(0.05)
+            sets = [e for e in s.truth[mark:] if e['kind'] == 'user-state-set']
+            last = sets[-1]['value'] if sets else state_now
+            if blind:
+                # the caller only waited: it reads neither the outcome nor the state before restarting (the state must be
+                # carried over all the same - "restart() starts the new incarnation from the last synchronised state")
+                s.probe('blind-restart')
+                state_now = last
+                mark = mark2 = len(s.truth)
+                r = lib.call_with_deadline(w.restart, 600.0, timeout=2)
+                if r[0] != 'ok':
+                    self.viol('restart', f'restart-{r[0]}:{type(r[1]).__name__ if r[1] is not None else None}')
+                    return
+                try:
+                    w.enqueue(1)
+                except Exception:
+                    pass
+                ending = 'return'
+                ent = []
+                for _ in range(200):
+                    ent = [e for e in s.truth[mark2:] if e['kind'] == 'run-enter']
+                    if ent:
+                        break
+                    s.sleep(0.01)
+                if ent and ent[0].get('state') != state_now:
+                    self.viol('next-incarnation-starts-from-synced', f'new-incarnation-state-differs:{lib.base_kind(kind)}:after-unobserved-end',
+                              {'child_saw': lib.safe_repr(ent[0].get('state')), 'synced': lib.safe_repr(state_now)})
+                    return
+                continue
             r4 = lib.read4(w)
             r4.pop('_result_obj', None)
             reported = (r4.get('has_error') is False) or (r4.get('has_error') is True and r4.get('error') is not None)
-            sets = [e for e in s.truth[mark:] if e['kind'] == 'user-state-set']
-            last = sets[-1]['value'] if sets else state_now
             got = w.user_state
             self.steps.append({'gen': gen, 'reported': reported, 'nsets': len(sets), 'r4': r4})
             if reported:
